@@ -90,6 +90,7 @@ type pullTrace struct {
 type layerTrace struct {
 	downloads int // updates with progress and no error
 	cached    int // updates with ErrCached
+	starts    int // invocations that announced the layer so far
 }
 
 func (pt *pullTrace) ctx(ctx context.Context) context.Context {
@@ -102,7 +103,7 @@ func (pt *pullTrace) ctx(ctx context.Context) context.Context {
 		}
 		switch {
 		case n == 0 && err == nil:
-			*lt = layerTrace{}
+			*lt = layerTrace{starts: lt.starts + 1}
 		case errors.Is(err, ollama.ErrCached):
 			lt.cached++
 		case err == nil:
@@ -134,6 +135,9 @@ type regWorld struct {
 	lastOps  int
 	phase    string
 	inflight []*pullTrace
+	attempt  int            // index of the current attempt
+	pullsOf  map[string]int // current attempt: layer digest -> number of pulls whose model has the layer
+	touched  map[string]bool // layers some earlier attempt has requested
 	desc     []string
 	info     map[string]int
 }
@@ -454,7 +458,7 @@ func (w *regWorld) findManifest(name string) (string, []byte, bool) {
 }
 
 type layerProblem struct {
-	kind   string // layer-missing | layer-size | layer-corrupt
+	kind   string // layer-missing | layer-short | layer-long | layer-corrupt
 	digest string
 	detail string
 }
@@ -479,8 +483,10 @@ func (w *regWorld) checkLayers(manifest []byte) (parsed bool, probs []layerProbl
 		switch {
 		case err != nil:
 			probs = append(probs, layerProblem{"layer-missing", l.Digest, fmt.Sprintf("layer %s (%d bytes) is not in the cache", l.Digest[:19], l.Size)})
-		case int64(len(b)) != l.Size:
-			probs = append(probs, layerProblem{"layer-size", l.Digest, fmt.Sprintf("layer %s has %d bytes in the cache, the manifest says %d", l.Digest[:19], len(b), l.Size)})
+		case int64(len(b)) < l.Size:
+			probs = append(probs, layerProblem{"layer-short", l.Digest, fmt.Sprintf("layer %s has only %d bytes in the cache, the manifest says %d", l.Digest[:19], len(b), l.Size)})
+		case int64(len(b)) > l.Size:
+			probs = append(probs, layerProblem{"layer-long", l.Digest, fmt.Sprintf("layer %s has %d bytes in the cache, the manifest says %d", l.Digest[:19], len(b), l.Size)})
 		case sha256Hex(b) != l.Digest:
 			probs = append(probs, layerProblem{"layer-corrupt", l.Digest, fmt.Sprintf("layer %s has the manifest's size %d in the cache but content %s (%s)", l.Digest[:19], l.Size, sha256Hex(b)[:19], w.damage(l.Digest, b))})
 		}
@@ -511,11 +517,23 @@ func (w *regWorld) damage(digest string, got []byte) string {
 
 // layerCause names how the pull(s) that could have linked the name came by the layer.
 func (w *regWorld) layerCause(pts []*pullTrace, digest string) string {
+	retried := false
 	for _, pt := range pts {
 		if pt.trusted(digest) {
 			return "trusted-existing-file"
 		}
+		if lt := pt.layers[digest]; lt != nil && lt.starts > 1 {
+			retried = true
+		}
 	}
+	if w.pullsOf[digest] > 1 {
+		// another pull of this attempt wanted the same layer (what the registry saw cannot be told apart per pull)
+		return "downloaded-concurrently"
+	}
+	if retried || w.touched[digest] {
+		return "downloaded-on-retry" // an earlier invocation or attempt has worked on the layer
+	}
+	// first invocation that touches the layer, alone: the chunk plan it was served is the only input
 	if st := w.reg.stats[digest]; st != nil && st.plan != "" && st.plan != planContiguous {
 		return "plan-" + st.plan
 	}
@@ -601,6 +619,19 @@ func (w *regWorld) runAttempt(k int, a regAttempt) {
 	}
 	w.reg.stats = map[string]*layerStat{}
 	w.reg.deliveredAll = map[string][][]byte{}
+	w.attempt = k
+	w.pullsOf = map[string]int{}
+	for _, mi := range a.models {
+		seen := map[string]bool{}
+		for _, ls := range w.models[mi].layers {
+			for _, l := range ls {
+				if !seen[l.digest] {
+					seen[l.digest] = true
+					w.pullsOf[l.digest]++
+				}
+			}
+		}
+	}
 	ctx, cancel := context.WithCancel(context.Background())
 	w.reg.cancelFn = cancel
 	w.reg.cancelAt = 0
@@ -649,6 +680,12 @@ func (w *regWorld) runAttempt(k int, a regAttempt) {
 	}
 	cancel()
 	w.reg.cancelAt = 0
+	if w.touched == nil {
+		w.touched = map[string]bool{}
+	}
+	for d := range w.reg.everRequested {
+		w.touched[d] = true
+	}
 	// quiescent for these names: failed or not, what resolves must be intact
 	verifsim.Atomic(func() {
 		for _, m := range w.models {
